@@ -9,7 +9,7 @@ EXPLANATION = ('Value-flow and guard rules over both drivers\' connected loops (
                'is cleared and write completion reported only when the whole batch was written and flushed, the outbound buffer has no other '
                'writer; the read hand-off passes exactly the bytes read; the WebSocket adapter\'s cursor arithmetic; submit paths validate '
                'first and produce a result on every failure path; the result sender resolves when dropped unsent; the operation receiver is '
-               'owned by the loop.')
+               'owned by the loop. Added in round 2: the tokio write arm awaits exactly one cancel-safe AsyncWriteExt::write and reports its count unchanged; no cancel-unsafe I/O helper is used in the connected loop.')
 ASSUMPTIONS = ['not decided: interleavings of submit/stop/close with the loop thread/task, transport fault sequences, the tokio WebSocket path (external stream-ws crate)',
                'library contract trusted: tokio::sync::oneshot::Sender resolves its receiver with an error when dropped unsent; a dropped mpsc receiver makes later sends fail']
 EXTRA_CONFIGS = ['tokio', 'threaded', 'threaded-ws']
@@ -295,7 +295,7 @@ def check(ctx, need):
     for nm, v, _, wfn, rfn, ffn in drivers:
         gs = v.calls('MqttClientImpl::get_next_connected_service_time')
         hs = v.calls('MqttClientImpl::handle_service')
-        ctx.ob(len(gs) >= 1 and all(guarded_any(v, c.bb, [r'^Option::is_none\(next_state\)$']) for c in gs), '%s: the next service time is queried inside the loop' % nm, 'svc|%s|query' % nm, loc=v.loc())
+        ctx.ob(len(gs) >= 1 and all(guarded_any(v, c.bb, [r'^next_state is None$']) for c in gs), '%s: the next service time is queried inside the loop' % nm, 'svc|%s|query' % nm, loc=v.loc())
         if nm == 'threaded':
             ok = len(hs) == 1 and guarded_any(v, hs[0].bb, [r'^\(\(MqttClientImpl::get_next_connected_service_time\(client\)\)@Some\.0 <= Instant::now\(\)\)$'])
         else:
